@@ -10,9 +10,9 @@ PROPS = {
     "C20": {
         "harnesses": [
             {"pkg": "ord", "name": "VH_C20_ListAccept", "quick": {"params": {"U": 2, "FQ": 0}}, "thorough": {"params": {"U": 3, "FQ": 1}}},
-            {"pkg": "ord", "name": "VH_C20_BidAccept", "quick": {"params": {"U": 2, "FQ": 0}}, "thorough": {"params": {"U": 3, "FQ": 1}}},
-            {"pkg": "ord", "name": "VH_C20_ListAccept2D", "quick": {"params": {"U2": 3}}, "thorough": {"params": {"U2": 4}}},
-            {"pkg": "ord", "name": "VH_C20_BidAccept2D", "quick": {"params": {"U2": 3}}, "thorough": {"params": {"U2": 4}}},
+            {"pkg": "ord", "name": "VH_C20_BidAccept", "quick": {"params": {"U": 2, "FQ": 0}}, "thorough": {"params": {"U": 2, "FQ": 1}}},
+            {"pkg": "ord", "name": "VH_C20_ListAccept2D", "quick": {"params": {"U2": 3, "FQ": 0}}, "thorough": {"params": {"U2": 4, "FQ": 1}}},
+            {"pkg": "ord", "name": "VH_C20_BidAccept2D", "quick": {"params": {"U2": 3, "FQ": 0}}, "thorough": {"params": {"U2": 3, "FQ": 1}}},
             {"pkg": "ord", "name": "VH_C20_Inscribe", "quick": {"params": {"BIG": 1}}, "thorough": {"params": {"BIG": 2}}},
         ],
         "assumptions": [],
